@@ -115,3 +115,18 @@ def c01_exp_half_argument_overflows(site, w):
         return False
     ax, ay, x, y = _xy(w)
     return x > 2 * _LOGMAX[w["dtype"]] and x != float("inf") and ay != float("inf")
+
+
+def c11_fma_fix_overflow_drops_error_term(site, w):
+    """emulated fma with fix_overflow=True when the Dekker product overflows internally (|x*y|(1+2^-(p-s))^2 > largest although x*y is finite):
+    the documented fallback xyh = x*y, xyl = 0 drops the product's error term, so under cancellation with z the result is RN(RN(xy)+z), several ULP off"""
+    if not site.endswith(":dekker_internal_overflow") or not w.get("dekker_internal_overflow"):
+        return False
+    if ":fo=1:" not in w.get("variant", ""):
+        return False
+    prec = {"float16": (11, 6), "float32": (24, 12), "float64": (53, 27)}[w["dtype"]]
+    big = {"float16": 65504.0, "float32": 3.4028234663852886e38, "float64": 1.7976931348623157e308}[w["dtype"]]
+    x, y = (_unfl(v) for v in w["operands"][:2])
+    import math
+    lm = math.log2(abs(x)) + math.log2(abs(y)) + 2 * math.log2(1 + 2.0 ** -(prec[0] - prec[1]))
+    return lm >= math.log2(big) - 1e-9 and abs(x * y) <= big
